@@ -21,8 +21,8 @@ CONFIG = {
             "operations in between, reload (close + loadFromDisk + replay), FlushCaches, flush+prune of the base caches to 0-3 entries}; "
             "after EVERY operation the in-memory state is dumped (dbRound, deltas, the four modified maps with reference counts, the "
             "three base caches) and every account / (account, creatable) / box key / creatable x both types -- live, deleted and "
-            "never-existing -- is looked up at every round from dbRound-1 to latest+1 (every third case; the others sample the inner "
-            "rounds).  Between G2 and postCommit the unsynchronised lookup variants report where the public ones block; one public "
+            "never-existing -- is looked up at every round from dbRound-1 to latest+1 (every fourth case; the others sample the inner "
+            "rounds, issue a random third of the lookups, or look up after a quarter of the operations only).  Between G2 and postCommit the unsynchronised lookup variants report where the public ones block; one public "
             "lookup per window is left blocked in a goroutine and must answer for the round asked after postCommit.  Public lookups "
             "are also issued by reader goroutines that are HELD right after their SQL query (au.accountsq is wrapped in-package) and "
             "released at random later points, so that their cache write lands after further blocks / commits / evictions.  Scripted "
